@@ -38,10 +38,24 @@ def is_comment(s):
     return h(s) == 'nop' and str(s[1]) == 'comment'
 
 
+def _norm_m1(e):
+    """documented normalisation of the correspondence (expressions, both sides; same as C31): the exporter reads a product whose
+    first factor is the literal -1 as a negation (Loki's `Product((-1, x))` convention) and such a product as a non-first term of
+    a sum as a subtraction; substituting the value -1 for a variable (replace_by_value) produces exactly these shapes.
+    R1 (-1)*x -> -x, R2 (-x)*y -> -(x*y), R3 a + (-x) -> a - x (exact identities of the FIR value semantics)."""
+    if h(e) == 'bin' and str(e[1]) == 'mul' and h(e[2]) == 'neg':
+        if dumps(e[2][1]) == '(i 1)':
+            return [A('neg'), e[3]]
+        return [A('neg'), [A('bin'), A('mul'), e[2][1], e[3]]]
+    if h(e) == 'bin' and str(e[1]) == 'add' and h(e[3]) == 'neg':
+        return [A('bin'), A('sub'), e[2], e[3][1]]
+    return e
+
+
 def norm_prog(prog):
     """normalisation of the correspondence: comment nops dropped (the transformation inserts marker comments; Loki turns
-    blank lines into comments)"""
-    return fir.canon(fir.map_program(fir.canon(prog), fs=lambda ss: [s for s in ss if not is_comment(s)]))
+    blank lines into comments); products with the literal -1 as in `_norm_m1`"""
+    return fir.canon(fir.map_program(fir.canon(prog), fe=_norm_m1, fs=lambda ss: [s for s in ss if not is_comment(s)]))
 
 
 def sub_lists(s):
@@ -307,6 +321,16 @@ def writes_param(cfg, prog):
             u = unit_of(prog, name)
             if any(writes(u[4], k.lower()) for k, _ in dic):
                 return True
+    return False
+
+
+def unprocessed_caller(cfg, prog):
+    """documented precondition ("all parts of the code calling subroutines that are transformed ... must be included"): a unit
+    that the Scheduler does not process (not reachable from the driver) calls a unit of the processed tree"""
+    done = set(cfg.order)
+    for u in units(prog):
+        if str(u[1]) not in done and any(str(c[1]) in done for c in calls_of(u[4])):
+            return True
     return False
 
 
@@ -826,6 +850,7 @@ class C39(Prop):
             'is non-trivial when the tree has at least one callee')
     trusted_base = ['harness/fir.py (printer, exporter from Loki IR, reference interpreter)', 'gfortran 12.2 (thorough tier)']
     assumptions = ['the parametrised variables are never written in the tree (precondition; cases violating it are skipped by the oracle)',
+                   'no routine outside the processed call tree calls a routine of the tree (documented warning of the transformation; such cases are skipped)',
                    'FIR semantics (Sem.lean) = Fortran semantics of the covered subset (tied to gfortran by the FIR self-test and the thorough tier)']
     extra_obligations = ['oracle: original with the documented guard vs really transformed program on matching and non-matching inputs']
 
@@ -837,8 +862,11 @@ class C39(Prop):
         n_tree = {'quick': 28, 'thorough': 260, 'search': 100}.get(tier, 36)
         for j in range(n_tree):
             mode = ('plain', 'plain', 'plain', 'plain', 'subentry', 'case', 'intent', 'tiny')[j % 8]
-            prog, _ = gen_tree(rng, weird_intent=(mode == 'intent'), tiny=(mode == 'tiny'))
-            order = scheduler_order(prog)
+            for _ in range(6):
+                prog, _ = gen_tree(rng, weird_intent=(mode == 'intent'), tiny=(mode == 'tiny'))
+                order = scheduler_order(prog)
+                if not unprocessed_caller(Cfg([], False, None, 'default', order), prog):
+                    break
             cfg = gen_cfg(rng, prog, order, mode)
             inputs = gen_tree_inputs(rng, prog, cfg.dic if cfg.entry is None or 'kernel' in cfg.entry else [], 2, 1 if tier == 'quick' else 2)
             gf = tier == 'thorough' and j % 3 == 0
@@ -890,8 +918,8 @@ class C39(Prop):
     # ---- direct oracle
     def oracle(self, req):
         prog, cfg, inputs, flag = decode(req)
-        if writes_param(cfg, prog):
-            return []        # outside the precondition: a parametrised variable is written
+        if writes_param(cfg, prog) or unprocessed_caller(cfg, prog):
+            return []        # outside the preconditions: a parametrised variable is written / a caller outside the tree
         cs = classes_of(cfg, prog)
         cls = cs[0] if cs else None
         try:
